@@ -53,6 +53,7 @@ type bvIn struct {
 	IssValue   uint64
 	IssToken   uint64
 	IssBlinded bool // psetv2 BlindedIssuance flag (flavour of the token id); v0: unused
+	IssNoFlag  bool // psetv2: the packet carries no blinded-issuance flag field at all (defaults to blinded)
 }
 type bvOut struct {
 	Asset      int // base asset, 100+i asset issued at input i, 200+i its token
@@ -75,9 +76,10 @@ type bvShape struct {
 	Outs    []bvOut
 	Parties []bvParty // bv2
 	// bv0
-	Sel     []int // output indexes given a blinding key
-	IssKeys bool
-	Ctor0   int // 0 BlindingData, 1 PrivateBlindingKey
+	Sel      []int // output indexes given a blinding key
+	IssKeys  bool
+	NoTokKey bool // bv0: IssuanceBlindingPrivateKeys with the asset key only
+	Ctor0    int  // 0 BlindingData, 1 PrivateBlindingKey
 }
 
 func (sh *bvShape) write(b *sb, v0 bool) {
@@ -91,7 +93,11 @@ func (sh *bvShape) write(b *sb, v0 bool) {
 		b.addn(uint64(in.Iss))
 		b.addn(in.IssValue)
 		b.addn(in.IssToken)
-		b.add(b2s(in.IssBlinded))
+		if in.IssNoFlag {
+			b.addn(2)
+		} else {
+			b.add(b2s(in.IssBlinded))
+		}
 	}
 	b.addn(uint64(len(sh.Outs)))
 	for _, o := range sh.Outs {
@@ -121,7 +127,11 @@ func (sh *bvShape) write(b *sb, v0 bool) {
 		for _, x := range sh.Sel {
 			b.addn(uint64(x))
 		}
-		b.add(b2s(sh.IssKeys))
+		if sh.IssKeys && sh.NoTokKey {
+			b.addn(2)
+		} else {
+			b.add(b2s(sh.IssKeys))
+		}
 		b.addn(uint64(sh.Ctor0))
 	}
 }
@@ -139,7 +149,9 @@ func bvReadShape(t *Toks, v0 bool) *bvShape {
 		in.Iss = t.Int()
 		in.IssValue = t.U64()
 		in.IssToken = t.U64()
-		in.IssBlinded = t.Int() == 1
+		fl := t.Int()
+		in.IssBlinded = fl == 1
+		in.IssNoFlag = fl == 2
 		sh.Ins = append(sh.Ins, in)
 	}
 	n = t.Int()
@@ -176,7 +188,9 @@ func bvReadShape(t *Toks, v0 bool) *bvShape {
 		for i := 0; i < n; i++ {
 			sh.Sel = append(sh.Sel, t.Int())
 		}
-		sh.IssKeys = t.Int() == 1
+		km := t.Int()
+		sh.IssKeys = km >= 1
+		sh.NoTokKey = km == 2
 		sh.Ctor0 = t.Int()
 	}
 	return sh
@@ -262,7 +276,7 @@ func bvBuildWorld(sh *bvShape, needProofs bool, v0 bool) *bvWorld {
 			e, _ := transaction.ComputeEntropy(wi.txid, wi.vout, make([]byte, 32))
 			wi.issAsset, _ = transaction.ComputeAsset(append([]byte{}, e...))
 			flag := uint(0)
-			if (!v0 && in.IssBlinded) || (v0 && sh.IssKeys) {
+			if (!v0 && (in.IssBlinded || in.IssNoFlag)) || (v0 && sh.IssKeys) {
 				flag = 1
 			}
 			wi.issToken, _ = transaction.ComputeReissuanceToken(append([]byte{}, e...), flag)
@@ -393,7 +407,9 @@ func (w *bvWorld) buildV2() (*psetv2.Pset, error) {
 			p.Inputs[i].IssuanceValue = in.IssValue
 			p.Inputs[i].IssuanceInflationKeys = in.IssToken
 			p.Inputs[i].IssuanceBlindingNonce = make([]byte, 32)
-			p.Inputs[i].BlindedIssuance = &fl
+			if !in.IssNoFlag {
+				p.Inputs[i].BlindedIssuance = &fl
+			}
 		case 2:
 			p.Inputs[i].IssuanceAssetEntropy = append([]byte{}, wi.entropy...)
 			p.Inputs[i].IssuanceValue = in.IssValue
